@@ -1,6 +1,8 @@
 """C13 - storage round trip: Read returns exactly what was last written.
 
-Theorem side: coq/store/props/C13.v.
+Theorem side: coq/store/props/C13.v - c13_roundtrip_sqlite and c13_roundtrip_cosmos (for every operation list of the
+domain, every Read and every result class of the model equal the specification's, Spec.v), c13_fetch_commit (what a
+successful Create committed is read back whole), c13_spec_read_* (never created / deleted reads as an error).
 Correspondence: real vaults (sqlite in-memory, sqlite file-backed, cosmosdb over its fake client) are driven
 through generated operation lists Create / UpdatePlan / UpdateBlock / UpdateChecks / UpdateSequence /
 UpdateAction / Delete; after every operation every plan id of the case (created, deleted, never created) is Read.
